@@ -1,5 +1,9 @@
 SPECIFICATION Spec
-CONSTANTS MaxLen = 2
+CONSTANTS Kinds = {"plain", "mixed"}
+          MixedServerSet = {"none", "rel", "relslash", "relroot", "abs", "absvar", "two", "psfirst", "pslast"}
+          MixedCoreServers = {"none", "rel", "relslash", "relroot", "abs", "absvar", "two", "psfirst", "pslast"}
+          MixedMethKeys = {"G", "P", "GP"}
+          MaxLen = 2
           MaxT = 2
           ServerSet = {"none", "rel", "relslash", "relroot", "abs", "absvar", "two", "psfirst", "pslast"}
           CoreLen = 2
